@@ -138,4 +138,13 @@ example : variantSource true { named := true, fields := [{ name := .other, tyBac
     ∧ variantSource false { named := true, fields := [{ name := .other, tyBacktrace := false, attr := some [.source] }] } = .ok (some 0) := by
   constructor <;> rfl
 
+/-- An ignored field does not turn its neighbour into "the sole field of a tuple": in a two-field
+tuple with one field ignored, the other (unattributed, not a backtrace) is *not* inferred as the
+source — the inference counts the declared fields, so ignoring a field never changes what is
+returned for the remaining ones. -/
+theorem ignored_sibling_makes_no_sole_field (fn gn : FName) (fb : Bool) :
+    selectSource { named := false, fields := [⟨fn, fb, some [.ignore]⟩, ⟨gn, false, none⟩] } = .ok none
+    ∧ selectSource { named := false, fields := [⟨gn, false, none⟩, ⟨fn, fb, some [.ignore]⟩] } = .ok none := by
+  cases fn <;> cases gn <;> cases fb <;> exact ⟨rfl, rfl⟩
+
 end Dm.Props.C09
